@@ -13,6 +13,7 @@ import Ww.Driver.Fault
 import Ww.Driver.C20
 import Ww.Driver.C19
 import Ww.Driver.C09
+import Ww.Driver.C04
 open Ww.Driver
 
 def dispatch (l : Line) : List Verdict :=
@@ -51,6 +52,13 @@ def dispatch (l : Line) : List Verdict :=
   | "cookiedec" => handleCookieDec l
   | "tamper09" => handleTamper09 l
   | "outscan" => handleOutScan l
+  | "url04" => handleUrl04 l
+  | "esc04" => handleEsc04 l
+  | "valid04" => handleValid04 l
+  | "canon04" => handleCanon04 l
+  | "redir04" => handleRedir04 l
+  | "whatwg04" => handleWhatwg04 l
+  | "loc04" => handleLoc04 l
   | k => [Verdict.bad s!"unknown kind {k}"]
 
 partial def loop (h : IO.FS.Stream) (out : IO.FS.Stream) (i : Nat) : IO Unit := do
